@@ -22,6 +22,9 @@ type SolverStats struct {
 	Errors   int     `json:"errors"`
 	Seconds  float64 `json:"solver_seconds"`
 	ModelHit int     `json:"decided_by_cached_model"`
+	CrossAgree    int `json:"second_solver_agrees"`
+	CrossDisagree int `json:"second_solver_disagrees"`
+	CrossUnknown  int `json:"second_solver_unknown"`
 }
 
 func (a *SolverStats) add(b SolverStats) {
@@ -32,6 +35,9 @@ func (a *SolverStats) add(b SolverStats) {
 	a.Errors += b.Errors
 	a.Seconds += b.Seconds
 	a.ModelHit += b.ModelHit
+	a.CrossAgree += b.CrossAgree
+	a.CrossDisagree += b.CrossDisagree
+	a.CrossUnknown += b.CrossUnknown
 }
 
 type Solver struct {
@@ -49,6 +55,7 @@ type Solver struct {
 	logf      *os.File
 	depth     int
 	lastErr   string
+	shadow    *Solver // second solver mirrored for cross-checking assertion verdicts
 }
 
 func newSolver(bin string, timeoutMs int, logPath string) (*Solver, error) {
@@ -130,6 +137,9 @@ func (s *Solver) send(line string) {
 	}
 	io.WriteString(s.in, line)
 	io.WriteString(s.in, "\n")
+	if s.shadow != nil && !strings.HasPrefix(line, "(check-sat") && !strings.HasPrefix(line, "(get-value") && !strings.HasPrefix(line, "(set-option") {
+		s.shadow.send(line)
+	}
 }
 
 func (s *Solver) PathBegin() {
